@@ -439,9 +439,10 @@ def exec (cfg : Cfg) : State → List Event → State × List Drop
     let (s2, d2) := exec cfg s1 es
     (s2, d1 ++ d2)
 
-/-- the states the node can be in -/
+/-- the states the node can be in: a downloader that has done nothing yet (local chain at any height `k`), and what events
+    make of it -/
 inductive Reach (cfg : Cfg) : State → Prop where
-  | init : Reach cfg {}
+  | init (k : Nat) : Reach cfg { head := k }
   | step {s : State} (e : Event) : Reach cfg s → Reach cfg (step cfg s e).1
 
 /-- the hash fetcher waits for an answer of the origin peer -/
